@@ -113,7 +113,7 @@ def run(prog, chk):
                    "(an out-argument of a call that can fail does not count): both objects release the same pointee" % (dst, f, dst), loc=fn.loc(fn.elem_line(b, i)), fn=fn)
         if st.get("copies") and not hits:
             chk.ob("C19.structcopy", fn.name, True, "%d whole-struct copy/copies: every released pointer field is re-assigned in the copy before the exit" % st["copies"], loc=fn.loc(), fn=fn)
-    if ncopies < 2:
+    if ncopies < 1:
         raise AnalysisBroken("C19.structcopy: only %d whole-struct copies recognised" % ncopies)
     chk.rule("C19.funnel", "only KSI_malloc / KSI_calloc / KSI_free call the C allocator", floor=1)
     chk.rule("C19.owner", "owning locals are released exactly once or handed over on every path", floor=250)
